@@ -157,7 +157,11 @@ def handleC16 : List String → Option String
           let key : Except Err String := match mergeChunkNumber dep.length nums with
             | .error e => .error e
             | .ok none => .ok "plain"
-            | .ok (some l) => if consecutive l then .ok ("+".intercalate (l.map toString)) else .error Err.valueError
+            | .ok (some l) =>
+              if !consecutive l then .error Err.valueError
+              -- the merged key equals the key of a per-chunk job that already exists: DataExistsError
+              else if (groupNumbers 0 sizes).contains l then .error Err.other
+              else .ok ("+".intercalate (l.map toString))
           match key with
           | .error e => pure s!"err {e.name}"
           | .ok key =>
